@@ -16,6 +16,7 @@ import os
 import re
 from vt import core
 from vt.main import decide
+from translate import rrel_tr
 
 ATTRS = ["kids", "members", "one", "links", "link", "parent", "zzz"]
 TYPES = ["Model", "Item", "Pkg", "Cls", "Anon", "Mem", "One", "Ref"]
@@ -422,10 +423,11 @@ def c_names(names):
 
 
 KNOWN_STR = ATTRS + TYPES + NAMEPOOL
-IMPORTS = ("From TxV Require Import Core.Base Core.Show Model.RrelSyntax Model.Rrel.\nOpen Scope string_scope.\n"
+IMPORTS = ("From TxV Require Import Core.Base Core.Show Gen.SrcRrel Model.RrelSyntax Model.Rrel.\nOpen Scope string_scope.\n"
            + "\n".join("Definition k_%s : list N := %s." % (x, core.coq_str(x)) for x in KNOWN_STR)
-           + "\nDefinition runq F m sq o names T px : string := (show_fres (find F m true sq o names T px) ++ \"|\" ++ "
-             "show_bool (find_hit F m true sq o names T))%string.")
+           + "\nDefinition runq F m sq o names T px : string := (show_fres (find F m (key_has_first src_facts) sq o names T px) ++ \"|\" ++ "
+             "show_bool (find_hit F m (key_has_first src_facts) sq o names T) ++ \"|\" ++ "
+             "show_bool (find_certified F m (key_has_first src_facts) sq o names T))%string.")
 
 
 def fuel(rows, names):
@@ -601,6 +603,78 @@ def parse_res(r):
     return (r, None)
 
 
+class Budget(Exception):
+    pass
+
+
+def ordered_first(rows, sq, start, names, cls, budget=30000):
+    """The documented order, stated directly: depth-first, ',' alternatives left to right (at every
+    nesting level), `*` with fewer unfoldings first along each branch, list attributes in model
+    order; no visited set (a `*` only refuses to re-enter an (object, consumed) pair that is on its
+    own recursion stack).  -> (target, path) of the first accepted item, or None."""
+    sp = Spec(rows, names)
+    left = [budget]
+
+    def tick():
+        left[0] -= 1
+        if left[0] < 0:
+            raise Budget()
+
+    def elem(e, first, it):
+        o, k, tr = it
+        tick()
+        if e[0] in ("Parent", "Dots"):
+            for (o2, _, _) in sp.elem(e, first, (o, k, 0)):
+                yield (o2, k, tr)
+        elif e[0] == "Nav":
+            b = sp.root(o) if first else o
+            _, a, consume, fixed = e
+            if not consume and fixed is None:
+                for x in sp.vals(b, a):
+                    yield (x, k, tr)
+            elif not (consume and k >= len(names)):
+                want = fixed if fixed is not None else names[k]
+                for x in sp.vals(b, a):
+                    if rows[x]["name"] == want:
+                        yield (x, k if fixed is not None else k + 1, tr + (x,))
+        elif e[0] == "Br":
+            yield from seq(e[1], first, it)
+        else:
+            yield from star(e[1], first, it, frozenset())
+
+    def star(body, first, it, stack):
+        o, k, tr = it
+        key = (o, k, first)
+        if key in stack:
+            return
+        tick()
+        if first:
+            if sl_seq(body):
+                yield it
+            if sr_seq(body):
+                yield (sp.root(o), k, tr)
+        else:
+            yield it
+        for it2 in seq(body, first, it):
+            yield from star(body, False, it2, stack | {key})
+
+    def path(p, i, first, it):
+        for it2 in elem(p[i], first and i == 0, it):
+            if i == len(p) - 1:
+                yield it2
+            else:
+                yield from path(p, i + 1, False, it2)
+
+    def seq(s, first, it):
+        for p in s:
+            yield from path(p, 0, first, it)
+
+    for (o, k, tr) in seq(sq, True, (start, 0, ())):
+        if k == len(names) and conforms(rows, o, cls):
+            return (o, list(tr))
+    return None
+
+
 def judge(rows, sq, start, names, cls, proxy, res):
     """-> list of (what, tags) property violations of one implementation answer."""
     kind, val = parse_res(res)
@@ -637,6 +711,22 @@ def judge(rows, sq, start, names, cls, proxy, res):
                 if t not in Jp:
                     out.append(("answer %s does not come from the first ','-alternative that has a justified result (%s)" % (t, sorted(Jp)), []))
                 break
+    # order at every nesting level: the answer is the first accepted item of the documented order
+    if kind in ("obj", "proxy") and uniq and not has_post(rows):
+        try:
+            exp = ordered_first(rows, sq, start, names, cls)
+        except (Budget, RecursionError):
+            exp = "skip"
+        if exp != "skip":
+            if exp is None:
+                out.append(("answer although the ordered evaluation of the expression accepts nothing", []))
+            elif kind == "obj" and exp[0] != val:
+                out.append(("answer %s is not the first result in the order of the expression (',' alternatives left to right at every level): expected %s" % (val, exp[0]), []))
+            elif kind == "proxy":
+                t, tr = exp
+                want = tr if tr and tr[-1] == t else tr + [t]
+                if val != want:
+                    out.append(("'+p:' path %s is not the path of the first result in the order of the expression (expected %s)" % (val, want), []))
     return out
 
 
@@ -662,7 +752,7 @@ def run(chk):
     import time
     t0 = time.time()
     dbg = os.environ.get('C11_DEBUG')
-    chk.prove([])
+    chk.prove([rrel_tr.translate])
     if dbg:
         print('prove', time.time() - t0)
     nfind = 260 if chk.thorough else 44
@@ -796,7 +886,7 @@ def run(chk):
                 mv, sq, names = model_res[ci][qi]
                 if mv is None:
                     continue
-                mres, mhit = mv.split("|")
+                mres, mhit, mcert = mv.split("|")
                 r = res["r"]
                 desc = {"model_text": c["model"], "xrefs": c["xrefs"], "post": c["post"], "start": q["start"], "name": q["name"],
                         "split": q.get("split"), "expr": q["expr"], "cls": q["cls"], "use_proxy": q["proxy"], "corpus": c.get("corpus")}
@@ -809,6 +899,11 @@ def run(chk):
                 if mhit == "F":
                     nohit += 1
                     chk.stat("search_without_pruning")
+                if mres == "None" and siblings_unique(rows) and not has_post(rows):
+                    chk.stat("not_found_certified" if mcert == "T" else "not_found_uncertified")
+                    if mcert != "T":
+                        disagreements.append({"case": desc, "impl": r, "model": "the visited set of the failed search does not pass closure_ok "
+                                              "(C11_complete_certified does not apply)"})
                 if mres == "OOF":
                     disagreements.append({"case": desc, "impl": r, "model": "model ran out of fuel"})
                 elif mres != r:
